@@ -7,10 +7,10 @@ open Lean QG.Model QG.Model.Shots
 
 `plan`     {"cpu":c,"S":s} → {"n_processes","chunksize","chunks":[[i,…],…]}
 `seq`      {"repaired":bool,"S":s,"p0":p,"lens":[…]}
-`par`      {"repaired":bool,"start":"fork"|"spawn","cpu":c,"S":s,"p0":p,"lens":[…],"worker":[…],"order":[…]}
+`par`      {"repaired":bool,"start":"fork"|"spawn"|"forkserver","cpu":c,"S":s,"p0":p,"lens":[…],"worker":[…],"order":[…]}
            → {"valid":bool,"entries":[[shot,worker,stream,start,len],…] (completion order),"disjoint":bool,
               "parent_pos": position of the parent's generator afterwards}
-             stream = ["parent"] | ["fresh",w] | ["child",e,i]
+             stream = ["parent"] | ["fresh",w] | ["child",e,i] | ["server"]
 `estimate` {"d":d,"S":s,"vectors":[[[num,den],…],…]} (accumulation order)
            → {"ok":[[num,den],…]} | {"err":"AssertionError"}
 `lens[i]` = number of generator outputs shot `i` consumes (missing entries: 1).
@@ -28,6 +28,7 @@ private def streamJson : Stream → Json
   | .parent => Json.arr #[Json.str "parent"]
   | .fresh w => Json.arr #[Json.str "fresh", toJson w]
   | .child e i => Json.arr #[Json.str "child", toJson e, toJson i]
+  | .server => Json.arr #[Json.str "server"]
 
 private def entriesJson (es : List Entry) : Json :=
   Json.arr (es.toArray.map fun e =>
@@ -55,6 +56,7 @@ def handlePar (j : Json) : Except String Json := do
   let start ← match ← getStr j "start" with
     | "fork" => pure StartMethod.fork
     | "spawn" => pure StartMethod.spawn
+    | "forkserver" => pure StartMethod.forkserver
     | s => throw s!"unknown start method {s}"
   let cfg : Config := ⟨← getBool j "repaired", start, ← getNat j "p0", lenOf (← natList j "lens")⟩
   let cpu ← getNat j "cpu"
